@@ -5,14 +5,14 @@ LEVEL = "model_checking"
 def run(ctx):
     ctx.rules.append(
         "MC_XlsxSheet: writer||reader product over sparse documents; every complete behaviour (token list: "
-        "explicit/implicit row and cell refs, empty rows/cells in gaps, dimension variants, all cell forms, "
+        "explicit/implicit row and cell refs (ECMA cursor rule, and the lax style: r on no row and on every cell), empty rows/cells in gaps, dimension variants, all cell forms, "
         "package variants prefix/compression/target spelling/part-name case/optional parts) is materialised "
         "into a real .xlsx and read through worksheet_range, worksheet_range_ref and worksheets(); "
         "non-trivial = has an implicit reference, gap token, dimension element or a non-default package")
     ctx.assumptions += ["zip and quick-xml below the token level", "materialiser harness/src/build/xlsx.rs",
                         "documents keep their bounding box below ~1.1M cells (dense Range)"]
     tier = "quick" if ctx.quick else "thorough"
-    for part in ("pos", "pfx", "typ", "dim", "pkg"):
+    for part in ("pos", "lax", "pfx", "typ", "dim", "pkg"):
         r = ctx.tlc("xlsx", "MC_XlsxSheet", "MC_XlsxSheet_%s_%s.cfg" % (tier, part), workers=ctx.pick(6, 12),
                     timeout=ctx.pick(600, 3000), xmx=ctx.pick("4g", "12g"))
         if "REPLAY" in r["tags"]:
